@@ -48,13 +48,13 @@ func installSources() {
 }
 
 type sessionOut struct {
-	segs    []string // UI transcript per input line (segs[0]: before the first prompt)
-	files   map[string][]byte
-	stdout  string
-	err     error
-	res     simrt.Result
-	ui      *simUI
-	nread   int
+	segs   []string // UI transcript per input line (segs[0]: before the first prompt)
+	files  map[string][]byte
+	stdout string
+	err    error
+	res    simrt.Result
+	ui     *simUI
+	nread  int
 }
 
 // runInteractive runs one interactive pprof session over lines.
